@@ -34,6 +34,14 @@ CLAIMS = {
              "against the 12-bit / 8-bit extraction and the pinned MSM number set.",
         note="Trusted: CPython, z3, pinned MSM number set (spec/msm.json); payload lengths 3-5 (quick).",
         ref="DESIGN.md section 5 C15", technique=TECH),
+    "C04": dict(
+        text="Bounded symbolic execution of the real constructor (free mode: every identity class x every payload length in the bound, all bits symbolic), of "
+             "RTCMReader.parse on symbolic buffers with a free validate integer, and of the reader over all byte streams up to the length bound in the three "
+             "error modes: on every feasible path the outcome must be a message, a clean end or one of the four library exception classes, modes 0/1 never raise, "
+             "and iteration ends within 3*len+8 next() calls (a path exceeding the decision budget is replayed under a watchdog).",
+        note="Trusted: CPython, z3, stream double contract; counters explored for 0,1,2 + one larger value; MSM masks above the header enumerated by popcount shape; "
+             "text messages capped at 150 paths per (identity,length) - caps are listed as truncations in the evidence.",
+        ref="DESIGN.md section 5 C04", technique=TECH),
 }
 
 NA_REASON = "check under construction in this build round (see DESIGN.md); will be claimed once its harness lands"
